@@ -285,6 +285,39 @@ def run(ctx):
                 if (si, so) != (a, b):
                     ctx.fail("extra-messages-sent", case, "counters after the batch %r, expected %r" % ((si, so), (a, b)))
 
+            # ---- the same with the counters far advanced (long-lived session): around 2^31, the adaptive-integer
+            # threshold 0xff000000 and the 32-bit wrap
+            if cipher is None and not hexdump and cls == "Transport" and deaths == 0:
+                for v in (0x7FFFFFFE, 0xFEFFFFFE, 0xFFFFFFFD):
+                    if not pair.barrier():
+                        break
+                    pair.peer.packetizer._Packetizer__sequence_number_out = v
+                    pair.subject.packetizer._Packetizer__sequence_number_in = v
+                    tp = [(rng.choice([t for t in unhandled if t != 3]), gen_payload(rng, False)[:64]) for _ in range(5)]
+                    st, si0, so0, obs, case, seqs = one(tp, "advanced-counters")
+                    case["counters_set_to"] = v
+                    ctx.case((sit_name, "advanced", v, tuple(tp)), True)
+                    ctx.dist("advanced-counters:0x%08x" % v)
+                    active, err, si, so, got = obs
+                    want = [(3, s_) for s_ in seqs]
+                    if not active or err != "-":
+                        e = L.root_exc(pair.subject.saved_exception)
+                        ctx.fail("unhandled-type-kills-session:" + (exc_site(e) if e is not None else "loop-left"),
+                                 case, "subject inactive with counters at 0x%08x: %r" % (v, e))
+                        deaths += 1
+                        fresh()
+                        sit = pair.situation()
+                        break
+                    if got != want:
+                        ctx.fail("wrong-unimplemented-reply:advanced-counters", case,
+                                 "peer received %r, expected %r" % (got, want))
+                    a, b = si0, so0
+                    for (t, p), s_ in zip(tp, seqs):
+                        cases.append(("step %s %d %d %d %s 0" % (st, a, b, t, hx(p)),
+                                      (1, "-", (a + 1) % 2 ** 32, (b + 1) % 2 ** 32, [(3, s_)]),
+                                      dict(case, what="advanced-counters-element", element=[t, len(p)]), None))
+                        a, b = (a + 1) % 2 ** 32, (b + 1) % 2 ** 32
+
             # ---- the session still works: a channel can be opened and used (model-independent)
             if deaths == 0 and auth:
                 try:
